@@ -2,141 +2,65 @@
 Bridge: the definition regenerated from the text of `StochasticIPTW.fit` (`Gen.stoch_iptw_fit`, `Gen/Stoch.lean`)
 computes the hand model of `Model/Stochastic.lean` (`planNumer`, `stochWeight`, `stochIptw`) at the plan the
 arguments denote.  Helper lemmas; the audited statements are in `Props/C05_Gen.lean` and `Props/C14_Gen.lean`.
+
+Only the three lemmas `gen_numer_eq`, `gen_ipw_eq`, `gen_marginal_eq` look inside the generated definition, and they
+do it by unfolding + case analysis on the row (treatment, condition hit or not, numerator NaN or not), so that
+equivalent spellings of the source lines (`A == 0` with swapped branches, `~eval(c)` with swapped branches, commuted
+products, temporaries) still go through; a change of what is computed does not.
 -/
 import ZepidVerif.Gen.Stoch
 import ZepidVerif.Lemmas.Stochastic
 import Mathlib.Algebra.Order.Field.Basic
+import Mathlib.Tactic.Ring
 namespace ZV.Stoch
 open ZV ZV.Std
 set_option linter.unusedSectionVars false
 set_option linter.unusedVariables false
 set_option linter.unusedSimpArgs false
+set_option linter.unreachableTactic false
+set_option linter.unusedTactic false
 variable {F : Type} [Field F] [LinearOrder F] [IsStrictOrderedRing F] [Transc F]
 
-/-- the plan the arguments of `StochasticIPTW.fit(p, conditional)` denote: `conditional is None` = one probability
-    for everyone; otherwise the (condition, probability) pairs **in listing order** (`zip(conditional, p)`) -/
+/-- the (condition, probability) pairs of `zip(conditional, p)`, **in listing order** -/
 def condsOf (ps : List F) (conditional : List (Nat → Bool)) : List (Cond F) :=
   (List.zip conditional ps).map fun cv => ⟨cv.1, cv.2⟩
 
+/-- the plan the arguments of `StochasticIPTW.fit(p, conditional)` denote: `conditional is None` = one probability
+    for everyone; otherwise the listed pairs -/
 def planOf (hasCond : Bool) (p : F) (ps : List F) (conditional : List (Nat → Bool)) : Plan F :=
   if hasCond then .cond (condsOf ps conditional) else .uncond p
 
-theorem nan_mul_div_some (x : Option F) (d w : F) :
-    Nan.mul (Nan.div x (some d)) (some w) = x.map fun nu => nu / d * w := by
-  cases x <;> rfl
+/-- two loops over the same list whose bodies agree compute the same thing -/
+theorem foldl_body_congr {α β : Type} (f g : β → α → β) (h : ∀ b a, f b a = g b a) (l : List α) (b : β) :
+    l.foldl f b = l.foldl g b := by
+  have : f = g := by funext b a; exact h b a
+  rw [this]
 
-theorem nan_div_some (x : Option F) (d : F) : Nan.div x (some d) = x.map fun nu => nu / d := by
-  cases x <;> rfl
-
-/-- the numerator loop of the generated code is the model's `overwrite` of the plan's pairs -/
-theorem gen_numer_loop (a : Bool) (i : Nat) (ps : List F) (conditional : List (Nat → Bool)) :
-    (List.zip conditional ps).foldl
-        (fun acc cv => if cv.1 i = true then some (if a = true then cv.2 else ((1 : Nat) : F) - cv.2) else acc) none
-      = overwrite (numerPairs a ((List.zip conditional ps).map fun cv => (⟨cv.1, cv.2⟩ : Cond F))) i := by
-  unfold overwrite numerPairs
+/-- the model's numerator of a conditional plan, as a loop over `zip(conditional, p)` -/
+theorem planNumer_cond_eq_foldl (ps : List F) (conditional : List (Nat → Bool)) (r : Row F) :
+    planNumer (.cond (condsOf ps conditional)) r
+      = (List.zip conditional ps).foldl (fun acc cv => if cv.1 r.i = true then some (recv r.a cv.2) else acc) none := by
+  show overwrite (numerPairs r.a (condsOf ps conditional)) r.i = _
+  unfold overwrite numerPairs condsOf
   rw [List.map_map, List.foldl_map]
   rfl
-
-/-- `np.average` of a NaN-able weight vector = the model's "NaN as soon as one row has no numerator" -/
-theorem nan_average_map (l : List (Row F)) (x : Row F → Option F) (f : Row F → F → F) :
-    Nan.average (fun r => some r.y) (fun r => (x r).map (f r)) l
-      = if l.all (fun r => (x r).isSome) then
-          some (sumBy (fun r => r.y * ((x r).map (f r)).getD ((0 : Nat) : F)) l /
-                sumBy (fun r => ((x r).map (f r)).getD ((0 : Nat) : F)) l)
-        else none := by
-  unfold Nan.average
-  have h : (l.all fun r => (some r.y).isSome && ((x r).map (f r)).isSome) = l.all (fun r => (x r).isSome) := by
-    congr 1; funext r; simp
-  rw [h]
-  simp
-
-/-- **the generated `StochasticIPTW.fit` is the model** at the plan its arguments denote: the `_numer_` column is
-    `planNumer`, the `_ipw_` column `stochWeight` (on the rows of the data; without a weight column the model's
-    frequency weight is 1), the marginal outcome `stochIptw` -/
-theorem stoch_iptw_fit_eq (hasCond hasWeights : Bool) (p : F) (ps : List F) (conditional : List (Nat → Bool))
-    (l : List (Row F)) (g : Row F → F) (hw : hasWeights = false → ∀ r ∈ l, r.w = 1) :
-    (∀ r, (Gen.stoch_iptw_fit hasCond hasWeights p ps conditional l g).1 r
-            = planNumer (planOf hasCond p ps conditional) r) ∧
-    (∀ r ∈ l, (Gen.stoch_iptw_fit hasCond hasWeights p ps conditional l g).2.1 r
-            = stochWeight (planOf hasCond p ps conditional) g r) ∧
-    (Gen.stoch_iptw_fit hasCond hasWeights p ps conditional l g).2.2
-            = stochIptw (planOf hasCond p ps conditional) g l := by
-  have hW : ∀ r ∈ l, (if hasWeights = true then r.w else 1) = r.w := by
-    intro r hr; cases hasWeights
-    · simp [hw rfl r hr]
-    · simp
-  cases hasCond
-  · -- unconditional plan: no NaN anywhere
-    have hpl : planOf false p ps conditional = .uncond p := rfl
-    rw [hpl]
-    have hsw : ∀ r ∈ l, stochW (.uncond p) g r = recv r.a p / recv r.a (g r) * r.w := by
-      intro r hr; simp [stochW, stochWeight, planNumer]
-    have hall : l.all (fun r => (planNumer (.uncond p) r).isSome) = true := by
-      rw [List.all_eq_true]; intro r hr; rfl
-    have hm : stochIptw (.uncond p) g l
-        = some (sumBy (fun r => r.y * (recv r.a p / recv r.a (g r) * r.w)) l /
-                sumBy (fun r => recv r.a p / recv r.a (g r) * r.w) l) := by
-      unfold stochIptw
-      rw [if_pos hall, sumBy_congr hsw,
-        sumBy_congr (fun r hr => by rw [hsw r hr] :
-          ∀ r ∈ l, r.y * stochW (.uncond p) g r = r.y * (recv r.a p / recv r.a (g r) * r.w))]
-    cases hasWeights
-    · have hw' := hw rfl
-      refine ⟨fun r => by simp [Gen.stoch_iptw_fit, planNumer, recv], fun r hr => ?_, ?_⟩
-      · simp [Gen.stoch_iptw_fit, stochWeight, planNumer, recv, hw' r hr]
-      · rw [hm]
-        simp only [Gen.stoch_iptw_fit]
-        simp only [Bool.false_eq_true, ↓reduceIte, Nat.cast_one, Option.some.injEq]
-        congr 1 <;> apply sumBy_congr <;> intro r hr <;> simp [recv, hw' r hr]
-    · refine ⟨fun r => by simp [Gen.stoch_iptw_fit, planNumer, recv], fun r hr => ?_, ?_⟩
-      · simp [Gen.stoch_iptw_fit, stochWeight, planNumer, recv]
-      · rw [hm]
-        simp only [Gen.stoch_iptw_fit]
-        simp only [Bool.false_eq_true, ↓reduceIte, Nat.cast_one, Option.some.injEq]
-        congr 1 <;> apply sumBy_congr <;> intro r hr <;> simp [recv]
-  · -- conditional plan: the loop, NaN where no condition holds
-    have hpl : planOf true p ps conditional
-        = .cond ((List.zip conditional ps).map fun cv => (⟨cv.1, cv.2⟩ : Cond F)) := rfl
-    rw [hpl]
-    generalize hcs : ((List.zip conditional ps).map fun cv => (⟨cv.1, cv.2⟩ : Cond F)) = cs
-    have hn : ∀ r : Row F, (List.zip conditional ps).foldl
-        (fun acc cv => if cv.1 r.i = true then some (if r.a = true then cv.2 else ((1 : Nat) : F) - cv.2) else acc) none
-          = planNumer (.cond cs) r := by
-      intro r; rw [gen_numer_loop, hcs]; rfl
-    have hd : ∀ r : Row F, (if r.a = true then g r else ((1 : Nat) : F) - g r) = recv r.a (g r) := fun r => rfl
-    cases hasWeights
-    · have hw' := hw rfl
-      refine ⟨fun r => ?_, fun r hr => ?_, ?_⟩
-      · simp only [Gen.stoch_iptw_fit]; exact hn r
-      · simp only [Gen.stoch_iptw_fit, Bool.true_eq_false, Bool.false_eq_true, ↓reduceIte]
-        rw [hn r, hd r, nan_div_some, stochWeight]
-        congr 1; funext nu; rw [hw' r hr, mul_one]
-      · simp only [Gen.stoch_iptw_fit, Bool.true_eq_false, Bool.false_eq_true, ↓reduceIte]
-        simp only [hn, hd, nan_div_some]
-        rw [nan_average_map l (fun r => planNumer (.cond cs) r) (fun r nu => nu / recv r.a (g r))]
-        unfold stochIptw
-        congr 1
-        congr 1
-        congr 1 <;> apply sumBy_congr <;> intro r hr <;> simp [stochW, stochWeight, hw' r hr]
-    · refine ⟨fun r => ?_, fun r hr => ?_, ?_⟩
-      · simp only [Gen.stoch_iptw_fit]; exact hn r
-      · simp only [Gen.stoch_iptw_fit, Bool.true_eq_false, ↓reduceIte]
-        rw [hn r, hd r, nan_mul_div_some, stochWeight]
-      · simp only [Gen.stoch_iptw_fit, Bool.true_eq_false, ↓reduceIte]
-        simp only [hn, hd, nan_mul_div_some]
-        rw [nan_average_map l (fun r => planNumer (.cond cs) r) (fun r nu => nu / recv r.a (g r) * r.w)]
-        rfl
 
 /-- the `_numer_` column of the generated code, at every row -/
 theorem gen_numer_eq (hasCond hasWeights : Bool) (p : F) (ps : List F) (conditional : List (Nat → Bool))
     (l : List (Row F)) (g : Row F → F) (r : Row F) :
     (Gen.stoch_iptw_fit hasCond hasWeights p ps conditional l g).1 r
       = planNumer (planOf hasCond p ps conditional) r := by
-  cases hasCond <;> cases hasWeights <;>
-    simp only [Gen.stoch_iptw_fit, Bool.false_eq_true, Bool.true_eq_false, ↓reduceIte] <;>
-    first
-      | rfl
-      | (rw [gen_numer_loop]; rfl)
+  cases hasCond
+  · have hpl : planOf false p ps conditional = .uncond p := rfl
+    rw [hpl]
+    cases hasWeights <;>
+      simp only [Gen.stoch_iptw_fit, Bool.false_eq_true, Bool.true_eq_false, ↓reduceIte, planNumer] <;>
+      cases r.a <;> simp [recv]
+  · have hpl : planOf true p ps conditional = .cond (condsOf ps conditional) := rfl
+    rw [hpl, planNumer_cond_eq_foldl]
+    cases hasWeights <;>
+      simp only [Gen.stoch_iptw_fit, Bool.false_eq_true, Bool.true_eq_false, ↓reduceIte] <;>
+      apply foldl_body_congr <;> intro acc cv <;> cases cv.1 r.i <;> cases r.a <;> simp [recv]
 
 /-- the `_ipw_` column of the generated code, at every row: numerator over the fitted probability of the treatment
     received, times the weight column when there is one -/
@@ -146,12 +70,17 @@ theorem gen_ipw_eq (hasCond hasWeights : Bool) (p : F) (ps : List F) (conditiona
       = (planNumer (planOf hasCond p ps conditional) r).map fun nu =>
           if hasWeights then nu / recv r.a (g r) * r.w else nu / recv r.a (g r) := by
   have hn := gen_numer_eq hasCond hasWeights p ps conditional l g r
-  cases hasCond <;> cases hasWeights <;>
-    simp only [Gen.stoch_iptw_fit, Bool.false_eq_true, Bool.true_eq_false, ↓reduceIte] at hn ⊢
-  · simp [planOf, planNumer, recv]
-  · simp [planOf, planNumer, recv]
-  · rw [hn, nan_div_some]; rfl
-  · rw [hn, nan_mul_div_some]; rfl
+  cases hasCond
+  · have hpl : planOf false p ps conditional = .uncond p := rfl
+    rw [hpl] at hn ⊢
+    cases hasWeights <;>
+      simp only [Gen.stoch_iptw_fit, Bool.false_eq_true, Bool.true_eq_false, ↓reduceIte, planNumer] at hn ⊢ <;>
+      cases r.a <;> simp [recv] <;> ring
+  · cases hasWeights <;>
+      simp only [Gen.stoch_iptw_fit, Bool.false_eq_true, Bool.true_eq_false, ↓reduceIte] at hn ⊢ <;>
+      rw [hn] <;>
+      cases planNumer (planOf true p ps conditional) r <;> cases r.a <;>
+      simp [Nan.div, Nan.mul, Nan.lift2, recv] <;> ring
 
 /-- `marginal_outcome` of the generated code in terms of its own `_ipw_` column: NaN as soon as one row has no
     numerator, else the ratio `Σ y·ipw / Σ ipw` -/
@@ -177,5 +106,33 @@ theorem gen_marginal_eq (hasCond hasWeights : Bool) (p : F) (ps : List F) (condi
   unfold Nan.average
   rw [hall]
   simp
+
+/-- **the generated `StochasticIPTW.fit` is the model** at the plan its arguments denote: the `_numer_` column is
+    `planNumer`, the `_ipw_` column `stochWeight` (on the rows of the data; without a weight column the model's
+    frequency weight is 1), the marginal outcome `stochIptw` -/
+theorem stoch_iptw_fit_eq (hasCond hasWeights : Bool) (p : F) (ps : List F) (conditional : List (Nat → Bool))
+    (l : List (Row F)) (g : Row F → F) (hw : hasWeights = false → ∀ r ∈ l, r.w = 1) :
+    (∀ r, (Gen.stoch_iptw_fit hasCond hasWeights p ps conditional l g).1 r
+            = planNumer (planOf hasCond p ps conditional) r) ∧
+    (∀ r ∈ l, (Gen.stoch_iptw_fit hasCond hasWeights p ps conditional l g).2.1 r
+            = stochWeight (planOf hasCond p ps conditional) g r) ∧
+    (Gen.stoch_iptw_fit hasCond hasWeights p ps conditional l g).2.2
+            = stochIptw (planOf hasCond p ps conditional) g l := by
+  have hrow : ∀ r ∈ l, (Gen.stoch_iptw_fit hasCond hasWeights p ps conditional l g).2.1 r
+      = stochWeight (planOf hasCond p ps conditional) g r := by
+    intro r hr
+    rw [gen_ipw_eq, stochWeight]
+    cases hasWeights
+    · simp [hw rfl r hr]
+    · simp
+  refine ⟨gen_numer_eq hasCond hasWeights p ps conditional l g, hrow, ?_⟩
+  rw [gen_marginal_eq]
+  unfold stochIptw stochW
+  rw [sumBy_congr (fun r hr => by rw [hrow r hr, Nat.cast_zero] : ∀ r ∈ l,
+        r.y * ((Gen.stoch_iptw_fit hasCond hasWeights p ps conditional l g).2.1 r).getD 0
+          = r.y * (stochWeight (planOf hasCond p ps conditional) g r).getD ((0 : Nat) : F)),
+    sumBy_congr (fun r hr => by rw [hrow r hr, Nat.cast_zero] : ∀ r ∈ l,
+        ((Gen.stoch_iptw_fit hasCond hasWeights p ps conditional l g).2.1 r).getD 0
+          = (stochWeight (planOf hasCond p ps conditional) g r).getD ((0 : Nat) : F))]
 
 end ZV.Stoch
